@@ -1310,6 +1310,14 @@ def _closing(interp, args, kwargs, node):
     return args[0]
 
 
+@ext("collections.OrderedDict")
+def _ordereddict(interp, args, kwargs, node):
+    """OrderedDict(): a dict (insertion order is what every dict of the engine keeps)."""
+    if args or kwargs:
+        interp.err(node, "collections.OrderedDict with initial content")
+    return interp.alloc(HDict())
+
+
 @ext("collections.defaultdict")
 def _defaultdict(interp, args, kwargs, node):
     if len(args) > 1 or kwargs:
@@ -1321,7 +1329,12 @@ def _defaultdict(interp, args, kwargs, node):
 
 @ext("collections.Counter")
 def _counter(interp, args, kwargs, node):
-    """Counter(xs) of concrete constants: how often each occurs, in order of first occurrence (anything else: unknown)."""
+    """Counter(xs) of concrete constants: how often each occurs, in order of first occurrence (anything else: unknown).
+    Counter() is the empty count; a missing key reads as 0 and `update(xs)` counts the constants of xs."""
+    if not args and not kwargs:
+        d = HDict()
+        d.is_counter = True
+        return interp.alloc(d)
     if len(args) == 1 and not kwargs:
         segs = interp.segments(args[0], node)
         if all(sg[0] == "one" and isinstance(sg[1], Const) and _surely_same_key(sg[1]) is not None for sg in segs):
@@ -1334,6 +1347,7 @@ def _counter(interp, args, kwargs, node):
             d = HDict()
             for k, n in counts.items():
                 interp.dict_store(d, first[k], Const(n), node)
+            d.is_counter = True
             return interp.alloc(d)
     interp.log("call.unknown", node, func=Sym(("ext", "collections.Counter")), args=tuple(args), kwargs=dict(kwargs))
     return Sym(("call", "collections.Counter", tuple(desc(a) for a in args), interp.fresh_id("c")))
@@ -2045,6 +2059,19 @@ def dict_method(interp, ref, o: HDict, name, args, kwargs, node):
         r = interp.alloc(d)
         interp.log("copy", node, src=ref, dst=r)
         return r
+    if name == "update" and getattr(o, "is_counter", False) and len(args) == 1 and not kwargs and isinstance(args[0], Ref) and isinstance(interp.deref(args[0]), HList):
+        # Counter.update(xs): one more for every element of xs
+        segs = interp.segments(args[0], node)
+        if all(sg[0] == "one" and interp.dict_key(sg[1]) is not None for sg in segs) and not o.each and not o.sym:
+            for sg in segs:
+                ck = interp.dict_key(sg[1])
+                old = o.entries.get(ck[1], Const(0))
+                if not (isinstance(old, Const) and isinstance(old.value, int)):
+                    interp.err(node, "Counter.update on a count that is not a constant")
+                interp.dict_store(o, sg[1], Const(old.value + 1), node, ref)
+            interp.log("dict.update", node, obj=ref, args=tuple(args))
+            return Const(None)
+        interp.err(node, "Counter.update with elements that are not constants")
     if name == "update":
         for a in args:
             if isinstance(a, Ref) and isinstance(interp.deref(a), HDict):
@@ -2122,6 +2149,8 @@ def str_method(interp, obj, name, args, kwargs, node):
             if all(g[0] == "one" and isinstance(g[1], Const) and isinstance(g[1].value, str) for g in segs_) and not interp.deref(a).is_set:
                 return Const(s.join(g[1].value for g in segs_))
             return Sym(("join", s, interp.list_desc(interp.deref(a))), "str")
+        if isinstance(a, TupleV) and all(isinstance(x, Const) and isinstance(x.value, str) for x in a.items):
+            return Const(s.join(x.value for x in a.items))
         return Sym(("join", s, desc(a)), "str")
     if name == "format":
         # plain positional / numbered / named fields without conversions: the same text an f-string builds
